@@ -17,3 +17,18 @@ impl core::convert::From<Vec<u8>> for Bytes {
 //@trusted T2 <[T; N] as AsRef<[T]>>::as_ref is the slice of all elements of the array
 pub assume_specification<T, const N: usize>[ <[T; N] as core::convert::AsRef<[T]>>::as_ref ](a: &[T; N]) -> (r: &[T])
     ensures r@ == a@;
+//@trusted T2 <BytesMut as AsRef<[u8]>>::as_ref is the content (as an inherent method: method-call syntax resolves to it)
+impl BytesMut {
+    #[verifier::external_body]
+    pub fn as_ref(&self) -> (r: &[u8]) ensures r@ == self@ { unimplemented!() }
+}
+//@trusted T2 <&[u8] as TryInto<[u8; N]>>::try_into succeeds exactly for slices of length N and copies the octets (Verus cannot attach a spec to the std impl; units call it through the shim method try_into_shim)
+pub trait TryIntoArrShim {
+    fn try_into_shim<const N: usize>(&self) -> (r: core::result::Result<[u8; N], ()>);
+}
+impl TryIntoArrShim for [u8] {
+    #[verifier::external_body]
+    fn try_into_shim<const N: usize>(&self) -> (r: core::result::Result<[u8; N], ()>)
+        ensures (r is Ok) == (self@.len() == N), r is Ok ==> r->Ok_0@ == self@
+    { unimplemented!() }
+}
